@@ -281,7 +281,7 @@ def bpi_reported_value(sx, shape, n):
 
 
 def jobs(tier):
-    o = dict(timeout_ms=15000, budget_s=(300 if tier == 'quick' else 900), max_paths=5000)
+    o = dict(timeout_ms=15000, budget_s=(120 if tier == 'quick' else 900), max_paths=5000)
     for i, sh in enumerate(PSH):
         nA, nO = sh.A, len(sh.olabels)
         for n in (1, 2):
